@@ -41,7 +41,7 @@ class Project:
         self.base = os.path.join(base, name); os.makedirs(self.base)
         spec = {'path': share_dir}
         if quota is not None: spec['quota'] = quota
-        self.share = LocalShare(spec); self.n = 0; self.phase = 'before'
+        self.share = LocalShare(spec); self.n = 0; self.phase = 'before'; self.links = []
     def op(self, kind, bid, content='c'):
         """returns ('ok', result) or ('exc', repr)"""
         from bob.utils import hashDirectory
@@ -57,7 +57,7 @@ class Project:
                 # installed the package or found it installed by somebody else; the link is made after the share API returned
                 if getattr(self, 'window', None): self.window()
                 if path is not None and os.path.isdir(os.path.join(path, 'workspace')):
-                    shutil.rmtree(ws); os.symlink(os.path.join(path, 'workspace'), ws)
+                    shutil.rmtree(ws); os.symlink(os.path.join(path, 'workspace'), ws); self.links.append((ws, path))
                 return ('ok', ('install', path, installed, ws))
             if kind == 'use':
                 self.n += 1
@@ -67,7 +67,7 @@ class Project:
                 finally: self.phase = 'after-api'
                 # builder.LocalBuilder._useSharedPackage links the workspace only after the share API returned
                 if getattr(self, 'window', None): self.window()
-                if path is not None: os.symlink(os.path.join(path, 'workspace'), ws)
+                if path is not None: os.symlink(os.path.join(path, 'workspace'), ws); self.links.append((ws, path))
                 return ('ok', ('use', path, ws))
             if kind.startswith('gc'):
                 pu, pn, dry = {'gc-auto': (False, False, False), 'gc-unused': (False, True, False), 'gc-all': (True, True, False), 'gc-dry': (False, True, True)}[kind]
@@ -169,6 +169,13 @@ def interleave(opA, opB, k, quota):
                 # the known window.  Without quota nobody collects anything: a missing package would be a different defect.
                 kind = 'collected-while-in-use/install-window' if quota is not None else 'installed-package-missing'
                 return {'kind': kind, 'A': opA[:2], 'B': opB[:2], 'at_step': k}, count[0]
+        if not forced:
+            # every package a workspace links to (prelude of project 2 included) is still there: nobody forced its removal
+            for proj in (p1, p2):
+                for ws, path in proj.links:
+                    if os.path.islink(ws) and not os.path.isdir(os.path.join(path, 'workspace')):
+                        return {'kind': 'collected-while-in-use/linked', 'detail': 'workspace %s links to %s which was collected without force' % (os.path.relpath(ws, base), os.path.relpath(path, share_dir)),
+                                'A': opA[:2], 'B': opB[:2], 'B_started_at_step_of_A': k, 'quota': quota}, count[0]
         c = store_consistent(share_dir)
         if c is not None: return {'kind': 'store-inconsistent', 'detail': c, 'A': opA[:2], 'B': opB[:2], 'B_started_at_step_of_A': k}, count[0]
         return None, count[0]
@@ -178,7 +185,7 @@ def interleave(opA, opB, k, quota):
 def sequential(quota, rnd):
     base = tempfile.mkdtemp(prefix='c15s-'); share_dir = os.path.join(base, 'share'); os.makedirs(share_dir)
     try:
-        p = Project(base, 'p', share_dir, quota); log = []
+        p = Project(base, 'p', share_dir, quota); log = []; forced_at = 0
         for i in range(rnd.randint(1, 6)):
             kind = rnd.choice(['gc-auto', 'gc-unused', 'gc-all', 'gc-dry', 'install', 'install', 'use'])
             bid = bytes([rnd.randint(1, 3)]) * 20
@@ -186,6 +193,10 @@ def sequential(quota, rnd):
             r = p.op(kind, bid, 'content%d' % rnd.randint(1, 2) * rnd.randint(1, 400)); log.append((kind, bid[:1].hex()))
             if r[0] == 'exc': return {'kind': 'operation-failed', 'failed': r[1], 'history': log, 'quota': quota}
             if kind == 'gc-dry' and sorted(os.listdir(share_dir)) != before: return {'kind': 'dry-run-mutated', 'history': log}
+            if kind == 'gc-all': forced_at = len(p.links)
+            for ws, path in p.links[forced_at:]:
+                if not os.path.isdir(os.path.join(path, 'workspace')):
+                    return {'kind': 'collected-while-in-use/linked', 'detail': 'a workspace links to %s which was collected without force' % os.path.relpath(path, share_dir), 'history': log, 'quota': quota}
             c = store_consistent(share_dir)
             if c is not None: return {'kind': 'store-inconsistent', 'detail': c, 'history': log, 'quota': quota}
         return None
